@@ -245,3 +245,89 @@ func (r *runner) addCases(m *model, in *input, outs map[string][]string) {
 		}
 	}
 }
+
+// ---- sort sites: the order the REAL output shows for a slice that went through a sort.Slice / sort.Sort comparator,
+// next to the elements with the projections the comparator compares (source line, name); Coq (Determ/Run.v
+// c19_sort_ok) looks the site up in Gen.MapRanges.sort_sites, requires as many projections as the comparator of the
+// current source has links, and compares with the model's sort under the lexicographic chain. ----
+
+const sortCaseHeader = `From Coq Require Import String List NArith.
+Import ListNotations.
+Require Import Verif.Determ.SortSites Verif.Determ.Run Verif.Gen.MapRanges Verif.Base.Harness.
+Local Open Scope string_scope.
+Local Open Scope N_scope.`
+const sortCaseType = "string * nat * list row * list string"
+const sortCaseFooter = `Definition M := Eval vm_compute in mismatches (c19_sort_ok sort_sites) cases.
+Print M.`
+
+func (r *runner) addSortCase(fn string, decl []nameLine, obs []string, what string) {
+	if len(obs) < 2 || len(obs) != len(decl) {
+		return
+	}
+	if r.sortCases == nil {
+		r.sortCases = r.c.NewCases("C19s", sortCaseHeader, sortCaseType, sortCaseFooter, 400)
+	}
+	rows := make([]string, len(decl))
+	tie := false
+	seen := map[int]bool{}
+	for i, d := range decl {
+		rows[i] = fmt.Sprintf("(%s, [KN %d; KS %s])", common.GString(d.Name), d.Line, common.GString(d.Name))
+		if seen[d.Line] {
+			tie = true
+		}
+		seen[d.Line] = true
+	}
+	r.sortCases.Add(fmt.Sprintf("(%s, 1%%nat, [%s], %s)", common.GString(fn), strings.Join(rows, ";"), gstrs(obs)),
+		map[string]interface{}{"site": fn, "what": what, "declared": decl, "observed": obs})
+	r.c.Hist("sort-site:" + fn)
+	if tie {
+		r.c.Hist("sort-site-with-tie:" + fn)
+	}
+}
+
+var (
+	reCreate  = regexp.MustCompile(`(?m)^CREATE TABLE (\w+)\(\n((?:  \w+ [^\n]*\n)*)`)
+	reColumn  = regexp.MustCompile(`(?m)^  (\w+) `)
+	reKeyName = regexp.MustCompile(`(?m)^\t(\w+)Key\b`)
+)
+
+// addSortCases: line-tie inputs through the database script (tables, columns) and the relgom code generator (model keys)
+func (r *runner) addSortCases(in *input, outs map[string][]string) {
+	meta := in.Ties
+	if meta == nil {
+		return
+	}
+	first := func(g string) string {
+		if o := outs[g]; len(o) > 0 && !strings.Contains(o[0], "PANIC: ") && !strings.Contains(o[0], "\nERROR: ") {
+			return o[0]
+		}
+		return ""
+	}
+	if txt, ok := filesOf(first("db:create"))[meta.App]; ok {
+		var tabs []string
+		for _, mt := range reCreate.FindAllStringSubmatch(txt, -1) {
+			tabs = append(tabs, mt[1])
+			var cols []string
+			for _, c := range reColumn.FindAllStringSubmatch(mt[2], -1) {
+				if c[1] != "CONSTRAINT" {
+					cols = append(cols, c[1])
+				}
+			}
+			r.addSortCase("database.sortNamesByLine", meta.Cols[mt[1]], cols, "db:create columns of "+mt[1])
+		}
+		r.addSortCase("database.sortNamesByLine", meta.Tables, tabs, "db:create tables")
+	}
+	if txt, ok := filesOf(first("codegen:relgom"))[meta.App+"/"+meta.App+".go"]; ok {
+		byLower := map[string]string{}
+		for _, t := range meta.Tables {
+			byLower[strings.ToLower(t.Name)] = t.Name
+		}
+		var obs []string
+		for _, k := range submatches(reKeyName, txt, 1) {
+			if n, ok := byLower[strings.ToLower(k)]; ok {
+				obs = append(obs, n)
+			}
+		}
+		r.addSortCase("syslutil.NamedTypesInSourceOrder", meta.Tables, obs, "relgom model keys")
+	}
+}
